@@ -103,7 +103,7 @@ package dag
 // merge (C02): the five scenarios, decided on the ghost ref store and the ancestry relation.
 // (C15) ... and no ref outside refs/<namespace>/ is ever created, moved or deleted by it
 //@ func merge
-//@   props C02 C07 C06 C01 C15
+//@   props C02 C07 C06 C01 C15 C11
 //@   ensures [own-namespace-only] forall k string :: { (k in repository.refs) } !strings.HasPrefix(k, "refs/" + def.Namespace + "/") ==> (k in repository.refs) == (k in old(repository.refs)) && repository.refs[k] == old(repository.refs)[k]
 //@   pure wrapper
 //@   requires repo != nil && def.OperationUnmarshaler != nil
